@@ -36,6 +36,17 @@ CLAIMED = {
         note="Trusted: Lean kernel (propext, Classical.choice, Quot.sound); the harness builds each script together with its item abstraction; mock core + host g++. "
              "Proved counterexample: an LCD/serial/buzzer first declared inside the loop body is not configured (documented placement excludes it).",
         technique="Lean 4 theorems over a model of the emitter's assembly order + model/compiled-sketch correspondence + trace monitors", ref="4/C05"),
+    "C07": dict(
+        text="Lean character/line-level model of the parser's layout handling (indentOf, the quote-aware comment stripper, collectBlock, the if/elif/else and try/except "
+             "chains, header recognition) against Python's own block rule: the stripper cuts exactly at the first `#` outside a string literal (all lines); blank lines, "
+             "comment lines indented like the following code, trailing comments on non-continuation lines and any scaling of the indentation unit never change the block "
+             "forest (all scripts); on scripts whose headers are all recognised the forest equals Python's. Model tied to the real parser's IR nesting on generated "
+             "scripts and their re-layouts; oracle: a script and its re-layout must emit identical text, and every source line must be translated, rejected or benign "
+             "(the guarded hook records every silently skipped line).",
+        note="Trusted: Lean kernel (propext, Classical.choice, Quot.sound); regular expressions are modelled by equivalent string functions (agreement checked by the tie, "
+             "not proved); the hook (aaec20d) reports skipped lines. Proved counterexamples / known findings K07a (comments on headers and dedented comment lines move "
+             "statements between blocks) and K07b (unrecognised statements silently dropped).",
+        technique="Lean 4 theorems over a character-level layout model (induction over line lists, fuel independence) + model/parser block-tree correspondence + re-layout oracle", ref="4/C07"),
     "C08": dict(
         text="One Lean obligation per constructor/method/Core helper (44 callables) over tables REGENERATED from the source on every run — the host signature "
              "(inspect.signature) and the transpiler's behaviour on every call shape (rejects? which provided values fail to reach the generated code?) — checked by "
